@@ -47,6 +47,10 @@ Outcomes(op, A, B) ==
                                     [] op.q.name = "filter" -> {Ok1(A, B, Filter_(A, op.q.pred))}
 
 (* ---- acceptor: what an observed outcome must satisfy ---- *)
+(* order-preserving selection (rows of an operand are pairwise distinct, so the greedy match is exact) *)
+RECURSIVE IsSubseqOf(_, _)
+IsSubseqOf(s, t) == IF s = <<>> THEN TRUE ELSE IF t = <<>> THEN FALSE
+                    ELSE IF Head(s) = Head(t) THEN IsSubseqOf(Tail(s), Tail(t)) ELSE IsSubseqOf(s, Tail(t))
 SameTab(x, y) == x.cols = y.cols /\ x.rows = y.rows
 Untouched(A, B, o) == SameTab(o.A, A) /\ SameTab(o.B, B)
 ErrOnly(A, B, o, kinds) == o.err # "" /\ Untouched(A, B, o)      \* the property does not fix the exception type
@@ -85,6 +89,12 @@ Accepts(op, A, B, o) ==
                                        /\ IsCutting(A, op.col, op.bins, o.groups)
                                        /\ \A i \in 1..Len(o.groups) : o.groups[i].tab.cols = A.cols
     [] op.name = "reject"      -> o.err # "" /\ Untouched(A, B, o)
+    \* operations recorded from arbitrary programs whose argument the specification cannot evaluate (a polars predicate, a
+    \* sort expression): the result is an order-preserving selection / a permutation of the receiver's rows, rows intact
+    [] op.name = "filter_any"  -> /\ Untouched(A, B, o)
+                                  /\ (o.err = "" => o.res.cols = A.cols /\ IsSubseqOf(o.res.rows, A.rows))
+    [] op.name = "perm_any"    -> /\ Untouched(A, B, o)
+                                  /\ (o.err = "" => o.res.cols = A.cols /\ IsPermOf(o.res.rows, A.rows))
     [] op.name = "peek"        -> CASE op.q.name = "head" -> Det(A, B, o, Head_(A, op.q.n))
                                     [] op.q.name = "tail" -> Det(A, B, o, Tail_(A, op.q.n))
                                     [] op.q.name = "filter" -> Det(A, B, o, Filter_(A, op.q.pred))
@@ -97,9 +107,9 @@ Ctx(op, A) == IF op.name = "cutby" /\ HasCol(A, op.col) /\ \E i \in 1..NRows(A) 
 Why(op, A, B, o) ==
   IF Accepts(op, A, B, o) THEN "ok"
   ELSE IF ~Untouched(A, B, o) /\ op.name # "append" THEN "OperandMutated"
-  ELSE IF o.err # "" THEN "UnexpectedError"
+  ELSE IF o.err # "" /\ op.name \notin {"filter_any", "perm_any"} THEN "UnexpectedError"
   ELSE IF op.name \in {"group_by", "cutby"} THEN "GroupsNotPartition"
   ELSE IF op.name = "reject" THEN "InconsistentInputAccepted"
-  ELSE IF op.name \in {"sort", "sample"} THEN "NotPermittedSelection"
+  ELSE IF op.name \in {"sort", "sample", "perm_any"} THEN "NotPermittedSelection"
   ELSE "WrongRows"
 =============================================================================
